@@ -54,6 +54,13 @@ CLAIMED["C08"] = ("DESIGN.md §4 C08",
     "panicking; every reported id leads to a restarted worker stored at the same index; Err/Shutdown/poison leave the loop; the task Sender is unique; no "
     "join on a thread that cannot return, none while holding a lock the joined thread takes. Interleavings themselves are not explored.")
 
+CLAIMED["C20"] = ("DESIGN.md §4 C20",
+    "R-MUSTPASS / R-DOM over the MIR of App::run, run_tls (tls build) and the tokio run coroutine + select closure; R-TABLE (wake-up address); R-CALLS (leak denylist); R-DIVERGE/R-LOCK join rules shared with C08",
+    "Decides: the accept loop loads the shutdown flag on every iteration between accept and dispatch, true leaves the loop, false keeps serving, pool.stop() "
+    "post-dominates the loop; run() stores the same flag, then connects to the loopback form of its own address (family and port preserved) and joins the "
+    "thread owning the listener before returning Ok; the listener is never leaked; dropping the stopped pool joins nothing immortal; tokio: the select's "
+    "cancelled() branch leaves the loop with Ok(()). Promptness and in-flight responses are not decided.")
+
 NOT_YET = {}
 
 NOT_APPLICABLE = {
